@@ -13,6 +13,7 @@ configured timeout); a forwarded GET on a second connection is served afterwards
 import hashlib
 import os
 import re
+import socket
 import time
 
 from vverif import lockstep as ls
@@ -35,7 +36,7 @@ ATOMS = [
 ]
 ATOM = dict(ATOMS)
 OPS1 = ['del', 'dup'] + [a for a, _ in ATOMS]          # 'del' is "replace by the empty atom": 28 operations per position
-OPS2 = ['del', 'dup', 'NUL', 'LF', 'CRLFCRLF', 'SP', 'comma', '-1', '0', '2^31', '2^64', 'chunked', 'HTTP/9.9', '0x']
+OPS2 = ['del', 'dup', 'NUL', 'CR', 'LF', 'CRLFCRLF', 'SP', 'colon', 'comma', 'semi', '-1', '0', '2^31', '2^63', '2^64', '20nines', 'chunked', 'HTTP/1.1', 'HTTP/9.9', '0x']
 
 REQLINE_RE = re.compile(rb'([A-Z]+) (\S+) HTTP/1\.[01]\r\n')
 TOKEN_RE = re.compile(rb"\r\n|HTTP/\d\.\d|\d+(?:\.\d+)*|[A-Za-z][A-Za-z0-9_.\-]*|[\x00-\xff]", re.S)
@@ -114,6 +115,12 @@ def request_seeds(P, uid=b'u000000'):
     add('forwarding-lists', g(b'/' + uid, b'X-Forwarded-For: 10.0.0.1, unknown, [::1]\r\nVia: 1.0 a, 1.1 b (c)\r\nForwarded: for=10.0.0.1;proto=http\r\n'))
     add('host-mismatch', b'GET ' + U(P, b'/' + uid) + b' HTTP/1.1\r\nHost: other.test:81\r\nUser-Agent: v/1.0 (x; y)\r\n\r\n')
     add('purge', g(b'/' + uid, method=b'PURGE'))
+    # sent to the accelerator (reverse proxy) port: the URL is rebuilt from origin-form target + Host / defaultsite
+    add('accel-get-vhost', b'GET /' + uid + b'?q=1 HTTP/1.1\r\nHost: ' + hp + b'\r\nAccept: */*\r\n\r\n')
+    add('accel-http10-no-host', b'GET /' + uid + b' HTTP/1.0\r\nUser-Agent: v\r\n\r\n')
+    add('accel-post-chunked', b'POST /' + uid + b' HTTP/1.1\r\nHost: ' + hp + b'\r\nTransfer-Encoding: chunked\r\n\r\n3\r\nabc\r\n0\r\n\r\n')
+    for sd in S[-3:]:
+        sd['accel'] = True
     return S
 
 
@@ -341,11 +348,19 @@ def crash_signature(problems):
     if m:
         kind = m.group(1)
         frame = '?'
-        for fm in re.finditer(r'#\d+ 0x[0-9a-f]+ in (\S+) ([^\s:]+)', text):
+        generic = None
+        for fm in re.finditer(r'#\d+ 0x[0-9a-f]+ in (\S+) ([^\s:]+)', text.split('allocated by')[0].split('freed by')[0]):
             fn, path = fm.group(1), fm.group(2)
-            if '/tree/' in path or path.startswith(('src/', 'lib/', '../')):
-                frame = fn.split('(')[0]
-                break
+            if 'sanitizer' in path or not ('/tree/' in path or path.startswith(('src/', 'lib/', '../src/', '../lib/'))):
+                continue
+            # generic containers / allocators name nothing: prefer the first frame outside them
+            if re.search(r'/(sbuf|base|mem|compat)/|SquidString|MemBuf|/String\.', path):
+                generic = generic or fn.split('(')[0]
+                continue
+            frame = fn.split('(')[0]
+            break
+        if frame == '?' and generic:
+            frame = generic
         return 'asan:%s:%s' % (kind, frame)
     m = re.search(r'runtime error: (.{0,80})', text)
     if m:
@@ -395,6 +410,7 @@ class HWorld:
             'forward_timeout 30 seconds', 'client_lifetime 100 seconds', 'pconn_lifetime 100 seconds', 'half_closed_clients off',
             'acl purge method PURGE', 'http_access allow purge', 'http_upgrade_request_protocols websocket allow all',
             'acl CONNECT method CONNECT',
+            'http_port 127.0.0.1:%d accel vhost allow-direct defaultsite=127.0.0.1:%d' % (self.base + 2, self.origin_port),
         ])
         self.sq = ls.Squid(ctx, 'h%d' % shard, self.base, conf=conf, memory_cache=True)
         self.origin = None
@@ -429,7 +445,12 @@ class HWorld:
             self.sq.settle(rounds)
         except HarnessError as e:
             if 'watchdog' in str(e):
-                raise Hang(str(e)[:300])
+                # a dying Squid can take longer than the watchdog to write its sanitizer report on a loaded machine
+                try:
+                    self.sq.proc.wait(timeout=90)
+                except Exception:
+                    raise Hang(str(e)[:300])
+                raise SquidDied()
             raise
         if not self.sq.alive() or not self.sq.live_slots():
             # the control socket closes a moment before the process can be reaped (ASan is still writing its report)
@@ -452,8 +473,16 @@ class HWorld:
     def origin_step(self):
         progressed = False
         for c in self.origin.accept_all():
-            self.oconns.append({'c': c, 'mode': None, 'buf': b'', 'answered': 0})
+            oc = {'c': c, 'mode': None, 'buf': b'', 'answered': 0}
+            self.oconns.append(oc)
             progressed = True
+            if self.script is not None and self.script.get('on_accept'):
+                # tunnel: the server speaks first
+                sc, self.script = self.script, None
+                self.origin_heads += 1
+                oc['mode'] = 'raw'
+                oc['answered'] = 1
+                c.send(sc['stream'])
         for oc in self.oconns:
             c = oc['c']
             if c.closed:
@@ -557,14 +586,19 @@ class HWorld:
     # ---- one case
     def run_stream(self, seed, stream):
         """Play one (possibly mutated) stream.  Returns (outcome class, transcript).  Raises SquidDied / Hang / Failed."""
-        c = self.sq.client()
+        if seed.get('accel'):
+            sk = socket.socket(socket.AF_INET, socket.SOCK_STREAM)
+            sk.connect(('127.0.0.1', self.base + 2))
+            c = ls.Conn(sk)
+        else:
+            c = self.sq.client()
         heads0 = self.origin_heads
         try:
             if seed['dir'] == 'req':
                 self.script = None
                 tosend = stream
             else:
-                self.script = {'stream': stream, 'close': seed['close']}
+                self.script = {'stream': stream, 'close': seed['close'], 'on_accept': seed['method'] == 'CONNECT'}
                 tosend = seed['req']
             sent = 0
             waited = 0
@@ -708,15 +742,19 @@ def run_shard(ctx, shard, nshards, tier, t_end, replay_cases=None):
         w = fresh()
         first = mine[:14] if replay_cases is None else []
         tr1 = []
-        for case in first:
-            tr1.append(run_one(w, case))
-        if first:
-            w = fresh()
-            for k, case in enumerate(first):
-                r = run_one(w, case)
-                if r != tr1[k]:
-                    raise HarnessError('nondeterminism: case %s gave different transcripts on two instances:\n%r\n%r' % (describe(case), tr1[k], r))
-            res['determinism_cases'] = len(first)
+        try:
+            for case in first:
+                tr1.append(run_one(w, case))
+            if first:
+                w = fresh()
+                for k, case in enumerate(first):
+                    r = run_one(w, case)
+                    if r != tr1[k]:
+                        raise HarnessError('nondeterminism: case %s gave different transcripts on two instances:\n%r\n%r' % (describe(case), tr1[k], r))
+                res['determinism_cases'] = len(first)
+                w = fresh()
+        except (SquidDied, Hang, Failed):
+            # Squid failed on one of the first cases: the main loop below meets the same case again and reports it properly
             w = fresh()
         for case in mine:
             if time.time() > t_end or len(res['violations']) >= MAX_VIOLATIONS_PER_SHARD:
@@ -763,7 +801,7 @@ ASSUME = ['the real squid binary (ASan build of the current tree, halt_on_error)
           'request_header_max_size / reply_header_max_size are set to %d bytes so that the "limit+1" atom stays cheap; all timeouts are set to <= 100 virtual seconds' % HDR_LIMIT,
           'one instance per shard is reused (memory cache on, unique URL per case); a failure is re-run twice on fresh instances before it is reported']
 RULE = ('distinct mutated streams: every token position (tokens = CRLF | HTTP-version | digit run | word | single byte) of every seed x {delete, duplicate, 26 hostile atoms} '
-        '(quick: request heads and response start-line/framing tokens only; thorough: all positions, plus all pairs over <= 8 start-line/framing word tokens per seed x 14 ops each); '
+        '(quick: request heads and response start-line/framing tokens only; thorough: all positions, plus all pairs over <= 12 start-line/framing word tokens per seed x 20 ops each); '
         'non-trivial = Squid answered the mutated connection with an HTTP response (it parsed the stream and either relayed it or produced its own error reply), '
         'as opposed to closing it silently')
 
